@@ -127,7 +127,8 @@ def access_checks(system, ids, listed):
     r['index'] = ok
     ok = True
     for sl in (slice(None), slice(1, None), slice(None, -1), slice(None, None, 2), slice(1, n, 3), slice(None, None, -1),
-               slice(-2, None), slice(n, None), slice(2, 1), slice(-1, 0, -2)):
+               slice(-2, None), slice(n, None), slice(2, 1), slice(-1, 0, -2), slice(None, None, -2), slice(None, None, -3),
+               slice(n - 2, None, -2), slice(None, 0, -2), slice(-1, None, -4)):
         try:
             got = [[a.atomid for a in m] for m in system[sl]]
             ok = ok and got == ids[sl]
